@@ -58,20 +58,35 @@ Fixpoint chunks (fuel : nat) (v : list (page * Z)) : list (list (page * Z)) :=
     end
   end.
 
-(* for every destination with a non-empty iov: chunked writev, return ALL its pages, clear *)
-Definition flush (s : wstate) : wstate :=
+(* Is every destination with a non-empty iov handed to write_use_plain_writev whatever descriptor its file
+   object reported, and does that call give the pages back unconditionally?  Regenerated from the source:
+   the guard in front of the call (evaluated for an empty / non-empty iov), the number of statements in
+   keep_writing that could bypass the call (continue / return / goto / shrinking a destination's iov there),
+   and in write_use_plain_writev the number of branches and of `deallocate(pages.data(), pages.size())` calls. *)
+Definition faithful_flush : bool :=
+  flush_guard 0 && negb (flush_guard 1) && Z.eqb keep_writing_escapes 0 &&
+  Z.eqb writev_branches 0 && Z.leb 1 writev_deallocates.
+
+(* one pass over the destinations.  `ok f` = the file object of destination f reported a usable descriptor in
+   this round; otherwise every writev on it fails (EBADF) and nothing reaches the file.  The pages are given
+   back either way - unless the regenerated facts above say the call can be bypassed, in which case the model
+   assumes the worst for a destination without a descriptor. *)
+Definition flush (ok : nat -> bool) (s : wstate) : wstate :=
   let live := filter (fun d => negb (match snd d with [] => true | _ => false end)) (pending s) in
   {| pending := map (fun d => (fst d, [])) (pending s);
-     written := written s ++ flat_map (fun d => map (fun c => (fst d, c))
-                                                  (filter writev_ok (chunks (length (snd d)) (snd d)))) live;
-     returned := returned s ++ flat_map (fun d => map fst (snd d)) live;
+     written := written s ++ flat_map (fun d => if ok (fst d)
+                                                then map (fun c => (fst d, c))
+                                                         (filter writev_ok (chunks (length (snd d)) (snd d)))
+                                                else []) live;
+     returned := returned s ++ flat_map (fun d => if faithful_flush || ok (fst d) then map fst (snd d) else []) live;
      stopped := stopped s |}.
 
-(* the do/while loop over the sequence of popped batches (any batching the queue may produce) *)
-Fixpoint writer (s : wstate) (batches : list (list item)) : wstate :=
-  match batches with
+(* the do/while loop over the sequence of rounds: the batch the queue hands over (any batching, empty polls
+   included) and which file objects have a descriptor in that round *)
+Fixpoint writer (s : wstate) (rounds : list (list item * (nat -> bool))) : wstate :=
+  match rounds with
   | [] => s
-  | b :: r => let s' := flush (scan s b) in if stopped s' then s' else writer s' r
+  | (b, ok) :: r => let s' := flush ok (scan s b) in if stopped s' then s' else writer s' r
   end.
 
 Definition file_stream (s : wstate) (f : nat) : list (page * Z) :=
